@@ -5640,8 +5640,24 @@ class LinProg:
         return table
 
     def show(self):
+        """
+        Returns a pandas.DataFrame that summarizes the information on the
+        optimization problem.
+        """
 
-        return self.showlc()
+        table = self.showlc()
+        columns = table.columns[:-2]
+        obj_row = pd.DataFrame(self.obj.reshape((1, self.obj.size)),
+                               columns=columns, index=['Obj'])
+        ub = pd.DataFrame(self.ub.reshape((1, self.ub.size)),
+                          columns=columns, index=['UB'])
+        lb = pd.DataFrame(self.lb.reshape((1, self.lb.size)),
+                          columns=columns, index=['LB'])
+        vtype = pd.DataFrame(self.vtype.reshape((1, self.vtype.size)),
+                             columns=columns, index=['Type'])
+        table = pd.concat([obj_row, table, ub, lb, vtype], axis=0)
+
+        return table.fillna('-')
 
     def solve(self, solver):
 
